@@ -180,6 +180,9 @@ func richSubtitles(r *fw.Rand) *astisub.Subtitles {
 		if ns > 0 && r.Bool() {
 			rg.Style = styles[r.Intn(ns)]
 		}
+		if r.P(1, 5) {
+			rg.InlineStyle = nil // a region that is only a name (or relies on its style)
+		}
 		regions = append(regions, rg)
 		s.Regions[rg.ID] = rg
 	}
@@ -209,12 +212,20 @@ func richSubtitles(r *fw.Rand) *astisub.Subtitles {
 		s.Metadata = md
 	}
 	var t int64
+	var sharedNotes []string
+	if r.P(1, 4) {
+		sharedNotes = []string{"note 0", "note 1", "note 2", "note 3", "note 4", "note 5"}
+	}
 	for k := 0; k < r.Range(1, 6); k++ {
 		t += int64(r.Intn(3000)) * 1e6
 		it := &astisub.Item{StartAt: time.Duration(t), EndAt: time.Duration(t + int64(r.Range(1, 4000))*1e6), Index: k + 1}
 		t = int64(it.EndAt)
 		if r.Bool() {
 			it.Comments = []string{"note"}
+			if sharedNotes != nil && k < len(sharedNotes) {
+				// the notes of all cues were loaded into one slice: each cue holds a window of it, with the others behind
+				it.Comments = sharedNotes[k : k+1]
+			}
 		}
 		if r.Bool() {
 			j := astisub.JustificationCentered
